@@ -1,7 +1,7 @@
 //! C09 / C10: RFC 8785 canonicalization.  Case lines: `k | <value>` (canonical bytes),
 //! `kk | <value a> | <value b>` (two spellings of one document), `kn <hex number>` (one number).
 use crate::common::*;
-use json_syntax::{Object, Print, Value};
+use json_syntax::{Object, Parse, Print, Value};
 
 fn decode1(line: &str) -> Option<Value> {
     let line = line.to_string();
@@ -153,6 +153,110 @@ fn eval_ke(line: &str) -> String {
     })
 }
 
+
+// ---- documents: two spellings of one value (white space, escapes, order, number spelling) ----
+/// Writes `v` as JSON text.  `fancy`: random white space, every string character written raw or
+/// as a `\uXXXX` escape (a surrogate pair beyond the BMP) or as its short escape, upper/lower
+/// case hex digits; otherwise the minimal raw spelling.
+fn spell_string(r: &mut Rng, s: &str, fancy: bool, out: &mut String) {
+    out.push('"');
+    for c in s.chars() {
+        let must = c == '"' || c == '\\' || (c as u32) < 0x20;
+        let choice = if fancy { r.below(3) } else { 0 };
+        let short = match c {
+            '"' => Some("\\\""),
+            '\\' => Some("\\\\"),
+            '/' => Some("\\/"),
+            '\u{8}' => Some("\\b"),
+            '\u{c}' => Some("\\f"),
+            '\n' => Some("\\n"),
+            '\r' => Some("\\r"),
+            '\t' => Some("\\t"),
+            _ => None,
+        };
+        if (must || choice == 1) && short.is_some() && (must || c != '/' || fancy) && (choice != 2) {
+            out.push_str(short.unwrap());
+        } else if must || choice == 2 {
+            let mut units = [0u16; 2];
+            for u in c.encode_utf16(&mut units) {
+                if fancy && r.chance(1, 2) {
+                    out.push_str(&format!("\\u{:04X}", u));
+                } else {
+                    out.push_str(&format!("\\u{:04x}", u));
+                }
+            }
+        } else {
+            out.push(c);
+        }
+    }
+    out.push('"');
+}
+fn ws(r: &mut Rng, fancy: bool, out: &mut String) {
+    if fancy && r.chance(1, 2) {
+        for _ in 0..r.range(1, 3) {
+            out.push(*r.pick(&[' ', '\n', '\t', '\r']));
+        }
+    }
+}
+fn spell_value(r: &mut Rng, v: &Value, fancy: bool, out: &mut String) {
+    match v {
+        Value::Null => out.push_str("null"),
+        Value::Boolean(b) => out.push_str(if *b { "true" } else { "false" }),
+        Value::Number(n) => out.push_str(n.as_str()),
+        Value::String(s) => spell_string(r, s, fancy, out),
+        Value::Array(a) => {
+            out.push('[');
+            ws(r, fancy, out);
+            for (i, x) in a.iter().enumerate() {
+                if i > 0 {
+                    out.push(',');
+                    ws(r, fancy, out);
+                }
+                spell_value(r, x, fancy, out);
+                ws(r, fancy, out);
+            }
+            out.push(']');
+        }
+        Value::Object(o) => {
+            out.push('{');
+            ws(r, fancy, out);
+            for (i, e) in o.iter().enumerate() {
+                if i > 0 {
+                    out.push(',');
+                    ws(r, fancy, out);
+                }
+                spell_string(r, e.key.as_str(), fancy, out);
+                ws(r, fancy, out);
+                out.push(':');
+                ws(r, fancy, out);
+                spell_value(r, &e.value, fancy, out);
+                ws(r, fancy, out);
+            }
+            out.push('}');
+        }
+    }
+}
+
+/// `kd | <hex text a> | <hex text b>`: both documents are parsed, canonicalized and printed.
+fn eval_kd(line: &str) -> String {
+    let t = toks(line);
+    if t.len() != 5 || t[1] != "|" || t[3] != "|" {
+        return "BADCASE kd".into();
+    }
+    let (a, b) = (parse_hex_string(t[2]), parse_hex_string(t[4]));
+    guarded(move || {
+        let canon = |s: &str| -> Option<String> {
+            let (mut v, _) = Value::parse_str(s).ok()?;
+            v.canonicalize();
+            Some(v.compact_print().to_string())
+        };
+        match (canon(&a), canon(&b)) {
+            (Some(x), Some(y)) => format!("same={} a={}", (x == y) as u8, hex_str(&x)),
+            _ => "REJECTED".into(),
+        }
+    })
+}
+
 pub fn eval_c09(line: &str) -> String {
     if line.starts_with("ke ") {
         return eval_ke(line);
@@ -176,6 +280,9 @@ pub fn eval_c09(line: &str) -> String {
 pub fn eval_c10(line: &str) -> String {
     if line.starts_with("ke ") {
         return eval_ke(line);
+    }
+    if line.starts_with("kd ") {
+        return eval_kd(line);
     }
     if line.starts_with("k ") {
         let Some(v) = decode1(line) else { return format!("BADCASE {line}") };
@@ -617,6 +724,29 @@ pub fn generate_c10(args: &Args, out: &mut Out) {
     let mut rng = Rng::new(args.seed ^ 0xC10);
     let full = args.thorough();
     gen_histories(out, &mut rng, if full { 20000 } else { 600 });
+    // documents that differ only in white space, escapes, member order and number spelling
+    for _ in 0..(if full { 20000 } else { 700 }) {
+        let mut r = rng.fork();
+        let mut s = String::new();
+        let d = r.range(1, 4);
+        gen_ijson(&mut r, d, &mut s);
+        let t: Vec<&str> = toks(&s);
+        let (v, _) = dec_value(&t);
+        let w = respell_value(&mut r, &v);
+        let (mut a, mut b) = (String::new(), String::new());
+        spell_value(&mut r, &v, false, &mut a);
+        spell_value(&mut r, &w, true, &mut b);
+        out.case_str(&format!("kd | {} | {}", hex_str(&a), hex_str(&b)));
+    }
+    // every supplementary plane and the BMP edges as escaped vs raw member names and values
+    for cp in [0x1_0000u32, 0x1_F600, 0x2_0000, 0x2_FFFF, 0x4_0000, 0x8_0000, 0xF_FFFF, 0x10_0000, 0x10_FFFF, 0xD7FF, 0xE000, 0xFFFF, 0x7F, 0x80, 0x2028] {
+        let c = char::from_u32(cp).unwrap();
+        let mut units = [0u16; 2];
+        let esc: String = c.encode_utf16(&mut units).iter().map(|u| format!("\\u{:04x}", u)).collect();
+        let a = format!("{{\"{c}\":\"{c}\",\"a\":1}}");
+        let b = format!("{{ \"a\" : 1.0 , \"{esc}\" : \"{esc}\" }}");
+        out.case_str(&format!("kd | {} | {}", hex_str(&a), hex_str(&b)));
+    }
     let nd = if full { 40000 } else { 1000 };
     for _ in 0..nd {
         let mut r = rng.fork();
